@@ -152,6 +152,15 @@ Definition arity_stub (nret : nat) (meth : handler) : handler :=
     | Some r' => if length r' =? nret then (tr, Some r') else (tr, None)
     | None => (tr, None)
     end.
+(** F<Svc>Client.<Method>Async (-gen go:async) runs the method in a goroutine and delivers the result
+    on one channel or the error on the other: next to an error the value is not observable *)
+Definition async_stub (is_nil : V -> bool) (nilv : V) (meth : handler) : handler :=
+  fun a =>
+    let '(tr, r) := meth a in
+    match r with
+    | Some [v; e] => if is_nil e then (tr, Some [v; e]) else (tr, Some [nilv; e])
+    | _ => (tr, r)
+    end.
 (** <scope>Publisher.Publish<Op>: [ret[0]] *)
 Definition pub_stub (meth : handler) : handler :=
   fun a =>
